@@ -286,6 +286,16 @@ def r6_5(ctx, R):
                 # dropped right before the panic (it was never accepted), on success the Result is ()
                 src = fl.local_expr(p["l"]) if not p["p"] else ("unknown",)
                 ok = src[0] == "call" and src[1] in ctx.facts.bodies and reaches(ctx.facts, ctx.facts.bodies[src[1]], re.escape(R.insert_fn.path) + "$", 3)
+                # ... and the function panics exactly when that result is an Err
+                tested = False
+                for sb in range(b.n):
+                    for tgt, labs in fl.edge_labels(sb).items():
+                        for lab in labs:
+                            if lab[0] == "bool" and lab[2] is True and lab[1][0] == "call" and (lab[1][1] or "").endswith("::is_err") \
+                                    and strip_refs(lab[1][2][0]) == src:
+                                pan = [pb_ for pb_, pt_, pf_ in b.calls() if pf_ and re.search(r"core::panicking::panic", pf_["def"]) and b.dominates(tgt, pb_)]
+                                tested = tested or bool(pan)
+                ok = ok and tested
                 why = "result of the try-variant in a panicking push (refused child dropped before the panic): %s" % ok
             elif how == "assume_init_drop" and any(b in c07.impl_fns_of(ctx, sp) for sp in c07.mu_structs(ctx)):
                 ok = True
@@ -388,7 +398,7 @@ def run(ctx):
     # children are dropped in place when vacated, the waker allocation is released exactly once (shared rules)
     import c02
     import c03
-    c02.r2_1(ctx, R)
+    c02.r2_1(ctx, R, only_in=c02.COLLECTIONS)
     c02.r2_3(ctx, R)
     ctx.rule("R2.1", "see C02 R2.1 (shared): a finished child's slot is vacated (dropped in place) exactly when it returned Ready")
     ctx.rule("R2.3", "see C02 R2.3 (shared): slot-map insert/remove all-or-none")
